@@ -27,16 +27,17 @@ ID = "C06"
 RULE = ("one case = one (dataset, scheme) pair.  'th' cases: partition + theorem only; 'alg' cases additionally run the 4 "
         "ParCons configurations (default, bound 0, bound 2 + KwikSort, bound 0 + BioCo) with cplex absent and with the "
         "cplex stand-in, 9 heuristic / free-solver configurations and 3 CPLEX-API configurations through the stand-in. "
-        "Datasets: every dataset n<=3, m<=2; seeded generic datasets; seeded 'conflict' datasets (mostly strict rankings, "
+        "Datasets: every dataset n<=3, m<=2; 24 hand-shaped datasets (Condorcet cycle over integer-like string names "
+        "next to a block of other string names) x 3 schemes; seeded generic datasets; seeded 'conflict' datasets (mostly strict rankings, "
         "3-6 rankings, presence probability 0.3-1.0, so that components are cyclic and rankings miss whole components); "
         "block datasets (rankings confined to one of two element blocks).  n<=6 quick / n<=7 thorough, all name kinds, "
         "presets + boundary + generic + scaled + random grid schemes.  Non-trivial = universe of >= 2 elements; "
         "distinct = distinct (dataset, scheme).")
 EXHAUSTIVE = {"quick": False, "thorough": False}
 SCOPE = {"quick": "th: 701 datasets (n<=3,m<=2) x 8 schemes + 6000 sampled (n<=6) with 150 grid schemes; "
-                  "alg: 3000 sampled (dataset n<=6, scheme) pairs x 20-21 (configuration, cplex mode) runs, ExactPulp on 1/3",
-         "thorough": "th: 701 datasets x 31 schemes + 60000 sampled (n<=7) with 400 grid schemes; "
-                     "alg: 30000 sampled (dataset n<=7, scheme) pairs x 20-21 runs, ExactPulp on 1/3"}
+                  "alg: 72 mixed-name cases + 3000 sampled (dataset n<=6, scheme) pairs x 20-21 (configuration, cplex mode) runs, ExactPulp on 1/3",
+         "thorough": "th: 701 datasets x 25 schemes + 60000 sampled (n<=7) with 400 grid schemes; "
+                     "alg: 72 mixed-name cases + 30000 sampled (dataset n<=7, scheme) pairs x 20-21 runs, ExactPulp on 1/3"}
 CHUNK = 4
 TIMEOUT = 300
 ASSUMPTIONS = ["cplex stand-in: /verif/bounded/standin_cplex.py replaces the proprietary cplex module (complete 0/1 "
@@ -129,8 +130,25 @@ def _sample(rng, nmax, tiny):
         return _block_dataset(rng, rng.randint(3, nmax))
 
 
+def _mixed_block_cases():
+    """A Condorcet cycle over integer-like string names ranked before / after a block of other string names."""
+    for k in (3, 4):
+        cyc = [str(2 * i) for i in range(k)]
+        for others in (["x1"], ["x1", "x3"]):
+            for first in (True, False):
+                d = []
+                for sh in range(3):
+                    c = [[x] for x in cyc[sh:] + cyc[:sh]]
+                    o = [list(others)]
+                    d.append(c + o if first else o + c)
+                for s in (D.unifying(), D.pseudo(), D.GENERIC_B):
+                    yield {"rankings": d, "scheme": s, "namekind": "mixed", "algs": True, "pulp": True}
+
+
 def gen_cases(tier, seed):
     quick = tier == "quick"
+    for c in _mixed_block_cases():
+        yield c
     nmax = 6 if quick else 7
     small = (D.PRESETS[:4] + [D.GENERIC_B, D.GENERIC_C, D.BOUNDARY[3], D.BOUNDARY[4]]) if quick else D.SCHEMES_ALL
     for s in small:
@@ -193,7 +211,8 @@ def _best_respecting(groups, tab):
 
 
 def _close(a, b, scale):
-    return abs(a - b) <= 1e-9 * max(abs(a), abs(b), scale)
+    """Oracle scores are exact sums of dyadic penalties; the tolerance is relative to the smallest positive penalty."""
+    return abs(a - b) <= 1e-9 * scale
 
 
 def _refusal(e):
